@@ -163,4 +163,28 @@ def destOk (s : State) (v : Nat) (d : Loc) : Bool :=
 def shuffleOk (dests : List (Nat × Loc)) (s : State) : Bool :=
   dests.all fun (v, d) => destOk s v d
 
+/-- variable infos, initial machine state and destinations of an assignment `(source location, requested destination)*`:
+    what `shuffle_correct` and the monitor judge a schedule against -/
+def setup (vals : List (FuncValue × Option FuncValue)) : List VarInfo × State × List (Nat × Loc) :=
+  let vars : List VarInfo := vals.map fun (src, dd) =>
+    match dd with
+    | some o => { srcType := src.typeId,
+                  dstType := if o.typeId ≠ 0 then o.typeId else if o.isReg then typeIdOfReg o.regType else src.typeId }
+    | none => { srcType := src.typeId, dstType := src.typeId }
+  let idx := List.range vals.length
+  let init : State := (idx.zip vals).filterMap fun (i, src, dd) =>
+    match dd with
+    | none => none
+    | some _ =>
+      if src.isReg then some (Loc.reg (groupOf src.regType) src.regId, initTok vars i)
+      else if src.isStack then some (Loc.argStack src.stackOffset, initTok vars i) else none
+  let dests : List (Nat × Loc) := (idx.zip vals).filterMap fun (i, _, dd) =>
+    dd.map fun o => (i, if o.isReg then Loc.reg (groupOf o.regType) o.regId else Loc.outStack o.stackOffset)
+  (vars, init, dests)
+
+/-- the judgement: `none` = the schedule contains something the machine does not know; `some b` = post-condition holds / fails -/
+def judge (arch : Arch) (f : FrameIn) (vals : List (FuncValue × Option FuncValue)) (insts : List Inst) : Option Bool :=
+  let (vars, init, dests) := setup vals
+  (run vars f.saOffSp f.saOffSa (spId arch) init insts).map (shuffleOk dests)
+
 end AsmjitVerif.Machine
